@@ -25,19 +25,20 @@ class Server:
                 c, _ = self.s.accept()
             except OSError:
                 return
+            buf = b""
             try:
                 c.sendall(self.script)
                 c.shutdown(socket.SHUT_WR)
-                buf = b""
                 c.settimeout(10)
                 while True:
                     d = c.recv(65536)
                     if not d: break
                     buf += d
-                self.received = buf
             except OSError:
-                pass
+                pass                      # a reset by the client (it closed with replies unread) still leaves what it sent
             finally:
+                self.received = buf
+                self.done = True
                 c.close()
 
 REPLY = {
